@@ -33,12 +33,18 @@ VARIABLES kids,    \* Node -> Seq(Node)           (childNodes)
 
 vars == <<kids, parent, txt, used, model, nops, hist>>
 view == <<kids, parent, txt, used, model, nops>>
+\* finer view: also the operation that produced the state, so that every distinct (operation, result)
+\* pair is explored and exported once
+LastOp == IF hist = <<>> THEN <<>> ELSE LET e == hist[Len(hist)] IN <<e.op, e.r, e.x, e.i, e.y>>
+viewop == <<kids, parent, txt, used, model, nops, LastOp>>
 
 Range(s) == {s[i] : i \in 1..Len(s)}
 
 (* ---------- list helpers (0-based positions as in Python) ---------- *)
-InsertAt(s, i, x) == SubSeq(s, 1, i) \o <<x>> \o SubSeq(s, i + 1, Len(s))
-InsertSeqAt(s, i, xs) == SubSeq(s, 1, i) \o xs \o SubSeq(s, i + 1, Len(s))
+(* list.insert clamps a position beyond the end to the end *)
+Clamp(s, i) == IF i > Len(s) THEN Len(s) ELSE i
+InsertAt(s, i, x) == SubSeq(s, 1, Clamp(s, i)) \o <<x>> \o SubSeq(s, Clamp(s, i) + 1, Len(s))
+InsertSeqAt(s, i, xs) == SubSeq(s, 1, Clamp(s, i)) \o xs \o SubSeq(s, Clamp(s, i) + 1, Len(s))
 DeleteAt(s, i) == SubSeq(s, 1, i) \o SubSeq(s, i + 2, Len(s))       \* delete 0-based position i
 IndexOf(s, x) == CHOOSE i \in 0..(Len(s) - 1) : s[i + 1] = x /\ \A j \in 0..(i - 1) : s[j + 1] # x
 Without(s, x) == IF x \in Range(s) THEN DeleteAt(s, IndexOf(s, x)) ELSE s
@@ -108,7 +114,7 @@ DoAppend(r, x) ==
 
 
 DoInsert(r, i, x) ==
-    /\ "insert" \in Ops /\ r \in Receivers /\ Eligible(r, x) /\ i \in 0..Len(kids[r])
+    /\ "insert" \in Ops /\ r \in Receivers /\ Eligible(r, x) /\ i \in 0..(Len(kids[r]) + 2)   \* also past the end
     /\ Commit(MInsert(kids, parent, r, i, x))
     /\ model' = [model EXCEPT ![r] = InsertSeqAt(@, i, Items(x))]
     /\ UseFrag(x) /\ UNCHANGED txt
@@ -257,7 +263,7 @@ Init == /\ kids = [n \in Nodes |-> <<>>]
 
 Next == \E r \in Nodes :
           \/ \E x \in Nodes : DoAppend(r, x)
-          \/ \E x \in Nodes, i \in 0..4 : DoInsert(r, i, x) \/ DoSetItem(r, i, x)
+          \/ \E x \in Nodes, i \in 0..6 : DoInsert(r, i, x) \/ DoSetItem(r, i, x)
           \/ \E x \in Nodes, y \in Nodes : \/ DoInsertBefore(r, x, y) \/ DoInsertAfter(r, x, y)
                                            \/ DoReplaceChild(r, x, y) \/ DoExtend(r, x, y)
                                            \/ DoInsertBeforeNotFound(r, x, y)
